@@ -41,7 +41,7 @@ func init() {
 			"sync.Pool reuse is made repeatable by GOMAXPROCS=1 and by switching the garbage collector off during a run",
 			"frames are slices and SEI only (in-band SPS/PPS/AUD NAL frames belong to C09, which this technique does not claim)",
 		},
-		RequiredProbes: []string{"c10.playlist-served", "c10.rollover", "c10.slow-reader-overlapped-rollover"},
+		RequiredProbes: []string{"c10.playlist-served", "c10.rollover", "c10.slow-reader-overlapped-rollover", "c10.segment-create-fails"},
 	})
 }
 
@@ -100,6 +100,13 @@ func buildC10(tier string) sim.Scenario {
 			vanishAt = int64(22000 + tp.Choose(12000))
 		}
 		vanished := map[int]bool{}
+		// disk mode: from this media time on the file of the segment after the open one cannot be created (a directory sits
+		// at its name; a full or read-only disk behaves alike). Whatever the generator does then — stop, or skip — what it
+		// keeps serving must stay a consistent playlist of intact segments.
+		createFailsAt := int64(-1)
+		if disk && vanishAt < 0 && tp.OneIn(4) {
+			createFailsAt = int64(12000 + tp.Choose(15000))
+		}
 		nReaders := 1 + tp.Choose(3)
 		readerDelay := make([]time.Duration, nReaders)
 		for i := range readerDelay {
@@ -349,6 +356,23 @@ func buildC10(tier string) sim.Scenario {
 				s.WriteFrame(&codec.Frame{MediaType: codec.MediaTypeAudio, Dts: t * 1e6, Pts: t * 1e6, Payload: au})
 			}
 			w.Sleep(time.Duration(interval) * time.Millisecond)
+			if createFailsAt >= 0 && t >= createFailsAt {
+				ents, _ := os.ReadDir(dir)
+				maxSeq, prefix := -1, ""
+				for _, e := range ents {
+					var h uint64
+					var q int
+					if n, _ := fmt.Sscanf(e.Name(), "%d_%d.ts", &h, &q); n == 2 && q > maxSeq {
+						maxSeq, prefix = q, fmt.Sprint(h)
+					}
+				}
+				if maxSeq >= 0 {
+					os.Mkdir(fmt.Sprintf("%s/%s_%d.ts", dir, prefix, maxSeq+1), 0o755)
+					w.Fault("segment-file-cannot-be-created")
+					w.Probe("c10.segment-create-fails")
+				}
+				createFailsAt = -1
+			}
 			if vanishAt >= 0 && t >= vanishAt && lastFirst > 0 {
 				// the oldest listed segment's file vanishes (operator clean-up, tmp reaper): the server's own delete at
 				// the next rollover fails and is retried later; nothing else may be affected
